@@ -13,6 +13,11 @@ class AnalysisError(Exception):
 
 
 PKG = "anytree"
+_ALWAYS_AVAILABLE = {"functools", "itertools", "collections", "operator", "re", "json", "os", "sys", "six", "warnings", "codecs", "copy",
+                     "logging", "subprocess", "tempfile", "math", "typing", "abc", "enum"}
+# attribute names that are properties somewhere in the package (reading them runs code): never copy-propagated
+_PROPERTY_NAMES = {"parent", "children", "path", "_path", "ancestors", "anchestors", "descendants", "root", "siblings", "leaves",
+                   "is_leaf", "is_root", "height", "depth", "size", "empty", "target"}
 
 
 def mangle(clsname, attr):
@@ -248,10 +253,14 @@ class Program:
                 except SyntaxError as exc:
                     raise AnalysisError("%s does not parse: %s" % (rel, exc))
                 if self.inline:
-                    from .inline import inline_module
+                    from .inline import inline_module, propagate_aliases
                     n, names = inline_module(mod.tree)
                     if n:
                         self.inlined[rel] = {"call_sites": n, "helpers": names}
+                    if rel not in ("anytree/node/nodemixin.py", "anytree/node/lightnodemixin.py"):
+                        k = propagate_aliases(mod.tree, _PROPERTY_NAMES)
+                        if k:
+                            self.inlined.setdefault(rel, {})["aliases_propagated"] = k
                 self.modules[rel] = mod
                 self.by_dotted[mod.dotted] = mod
 
@@ -305,10 +314,25 @@ class Program:
                     if isinstance(t, ast.Name):
                         mod.assigns[t.id] = st.value
             elif isinstance(st, ast.Try):
-                # e.g. optional import with fallback definition (cachedsearch)
+                # optional import with fallback definition (cachedsearch): an import of an always-available
+                # module in the try body wins over the fallback in an ImportError handler; an import of a
+                # third-party package that is not part of the analysed environment (fastcache) loses
+                firm = set()
+                for b in st.body:
+                    if isinstance(b, ast.ImportFrom) and (b.module or "").split(".")[0] in _ALWAYS_AVAILABLE and b.level == 0:
+                        firm |= {a.asname or a.name for a in b.names}
+                    elif isinstance(b, ast.Import):
+                        firm |= {a.asname or a.name.split(".")[0] for a in b.names if a.name.split(".")[0] in _ALWAYS_AVAILABLE}
                 self._index_body(mod, st.body)
                 for h in st.handlers:
+                    before_f, before_i, before_a = dict(mod.functions), dict(mod.imports), dict(mod.assigns)
                     self._index_body(mod, h.body)
+                    for name in firm:
+                        for cur, old in ((mod.functions, before_f), (mod.imports, before_i), (mod.assigns, before_a)):
+                            if name in old:
+                                cur[name] = old[name]
+                            else:
+                                cur.pop(name, None)
                 self._index_body(mod, st.orelse)
                 self._index_body(mod, st.finalbody)
             elif isinstance(st, ast.If):
